@@ -725,7 +725,7 @@ func main() {
 		workerMain(os.Args[2])
 		return
 	}
-	r := ev.Start("C02", "exploration", 185*time.Second, 38*time.Minute)
+	r := ev.Start("C02", "exploration", 5*time.Minute, 45*time.Minute)
 	tier := r.Tier
 	scratch := fmt.Sprintf("/dev/shm/verif-c02-%d", os.Getpid())
 	_ = os.RemoveAll(scratch)
@@ -855,7 +855,7 @@ func main() {
 	r.Set("container_aware_units", nContainer)
 
 	// ---- phase 1: every mutant through Extract -----------------------------------------------------
-	budget := ev.Pick(r, 185*time.Second, 38*time.Minute)
+	budget := ev.Pick(r, 5*time.Minute, 45*time.Minute)
 	if s, err := strconv.Atoi(os.Getenv("VERIF_BUDGET_S")); err == nil && s > 0 {
 		budget = time.Duration(s) * time.Second
 	}
